@@ -102,6 +102,9 @@ impl Mon {
         if t == n.saturating_mul(3).saturating_add(5) {
             self.inst.perturb(0);
         }
+        if t == n.saturating_mul(4).saturating_add(7) {
+            self.inst.perturb(2); // clone_from into a used instance built with the same, smaller or larger periods
+        }
         let out = match self.inst.feed(x) {
             Ok(o) => o,
             Err(pn) => {
@@ -211,6 +214,10 @@ fn period(rng: &mut Rng, max: usize) -> usize {
 }
 
 fn variant(kind: Kind, rng: &mut Rng) -> Params {
+    // one draw in twelve is the documented default configuration (which the wrapper builds through Default::default())
+    if rng.below(12) == 0 {
+        return kind.default_params();
+    }
     let mut p = Params::new1(kind, period(rng, 1024));
     match kind {
         Kind::Macd | Kind::Ppo => p.p = [period(rng, 300), period(rng, 300), period(rng, 100)],
